@@ -9,9 +9,9 @@ Ties: every counterexample is replayed on the real objects (Signature.bind on th
 the substitute raises TypeError, and an actual call of the substitute raises TypeError at the call
 boundary); the model `binds` is compared with real calls of `def`-functions of the same shape and with
 Signature.bind on random call forms.  Confirmed rejections are defects of the tree (key `sig <callable>`).
-Second half of the property (no argument silently ignored): no theorem; explored by single-call programs that
-pass one optional argument with a non-default value, by keyword and positionally, through to_onnx +
-onnxruntime and compare with JAX (key `arg <callable>.<parameter>`)."""
+Second half of the property (no argument silently ignored): no theorem; behavioural differential over call
+forms x boundary argument values (original eagerly vs substitute traced+evaluated vs exported model in
+onnxruntime), key `arg <callable>(<call form with the value>)`."""
 import inspect
 import json
 import keyword
@@ -531,12 +531,7 @@ def why(sig, n, kws):
         return str(exc)
 
 
-# ------------------------------------------------------------------ exploration of the second half (no theorem)
-# "No argument is silently ignored": no theorem.  For module-level functions whose required parameters are arrays, every
-# optional parameter that BOTH signatures accept is passed by keyword with a non-default value in a single-call program;
-# the program is run by JAX and exported + run by onnxruntime.  Outcome must be an exception at export (an explicit
-# rejection) or the same result.  Only differences that (a) vanish with the default value and (b) show with the
-# non-default value are reported (key `arg <callable>.<parameter>`); everything else is only counted in the evidence.
+# ------------------------------------------------------------------ second half of the property (no theorem): shared helpers
 ARRAY_NAMES = {"x", "a", "x1", "x2", "y", "b", "lhs", "rhs", "v", "m", "ar", "array", "arr", "inputs", "operand", "p",
                "image", "sample", "condition", "logits", "ary", "A", "query", "key", "value", "q", "k"}
 
@@ -630,24 +625,6 @@ def _export_run(fn, arrays):
 EXPLORE_SKIP_MODULES = ("jax.random", "jax.lax", "jax.image", "jax.numpy.linalg", "dm_pix", "jax2onnx", "jax.nn.initializers")
 
 
-def _explorable(e):
-    """(function, required array parameters, optional parameters) or None"""
-    if not inspect.ismodule(e["target"]) or e["target"].__name__.startswith(EXPLORE_SKIP_MODULES):
-        return None
-    so = e["orig_sigs"][0]
-    req = [p for p in so.parameters.values() if p.default is p.empty and p.kind in (p.POSITIONAL_ONLY, p.POSITIONAL_OR_KEYWORD)]
-    opts = [p for p in so.parameters.values() if p.default is not p.empty]
-    if not req or not opts or any(p.name not in ARRAY_NAMES for p in req) or \
-            any(p.kind is p.VAR_POSITIONAL for p in so.parameters.values()) or \
-            any(p.default is p.empty and p.kind is p.KEYWORD_ONLY for p in so.parameters.values()):
-        return None
-    tgt, attr = e["target"], e["attr"]
-
-    def f(*a, **k):            # looked up at call time, as user code does: the original eagerly, the substitute while tracing
-        return getattr(tgt, attr)(*a, **k)
-    return f, req, opts
-
-
 def _crossing(e):
     """positional index at which original and substitute name the parameter differently although the name exists on the
     other side too (a hint that positional arguments are routed to a different parameter)"""
@@ -659,128 +636,367 @@ def _crossing(e):
     return None
 
 
-def _probe_argument(f, arrays, base, name, v, before=None):
-    """-> (status, detail): 'invalid' (JAX rejects it), 'no-effect', 'rejected' (explicit unsupported-feature error at export),
-    'model-invalid' (export succeeds, onnxruntime refuses the model: counted, other properties), 'same',
-    'FAILS' (export raises something that is not an unsupported-feature error), 'DIFFERENT'.
-    before=None: pass name=v by keyword; otherwise pass positionally after the default values `before` of the
-    optional parameters that precede it (which means the same as omitting them)"""
-    as_input = hasattr(v, "shape") and hasattr(v, "dtype")     # an array value is a graph input like the required arrays
-    k_ = len(arrays)
-    if as_input:
-        arrays = list(arrays) + [v]
-    if before is None:
-        call = (lambda *xs, _f=f, _k=name, _v=v: _f(*xs[:k_], **{_k: (xs[k_] if as_input else _v)}))
-    else:
-        call = (lambda *xs, _f=f, _b=tuple(before), _v=v: _f(*xs[:k_], *_b, (xs[k_] if as_input else _v)))
+# ------------------------------------------------------------------ behavioural differential over call forms x boundary values
+# (no theorem)  For every substituted module-level function whose leading parameters are arrays: every call form of the
+# original that the binding model distinguishes for ONE varied optional parameter (keyword; positional after the defaults of
+# the parameters before it; the same with one other optional parameter at a non-default companion value) x boundary values of
+# that parameter's kind.  (a) the ORIGINAL evaluated eagerly, against
+#   J: the substitute traced inside the converter's patched world (jax.make_jaxpr) and evaluated with jax.core.eval_jaxpr
+#      -- cheap: every form x value in both tiers; shows what the substitute does with the arguments before lowering;
+#   E: the exported model run by onnxruntime -- a seed-chosen sample in quick, everything in thorough.
+# Equal shapes / dtype class / values, or an explicit unsupported-feature error, or the original raises too.
+NUMBERS = [0, 0.0, -0.0, False, 1, -1]
+AXES = [0, -1, None, (), (0,), 1]
+
+
+def _vtext(v):
+    import numpy as np
+    if hasattr(v, "shape") and hasattr(v, "dtype"):
+        k = {"f": "f", "b": "bool", "i": "i", "u": "u"}.get(np.dtype(v.dtype).kind, str(v.dtype))
+        return f"<{k}{np.dtype(v.dtype).itemsize * 8 if k != 'bool' else ''}{list(v.shape)}>".replace(" ", "")
+    if isinstance(v, type) or hasattr(v, "dtype") and hasattr(v, "__name__"):
+        return getattr(v, "__name__", repr(v))
+    return repr(v)
+
+
+def boundary_values(p, first):
+    """boundary values for parameter p of the original, by the kind its default / annotation / name reveal"""
+    import numpy as np
+    import jax.numpy as jnp
+    name, d, ann = p.name, p.default, str(p.annotation)
+    arrs = [np.asarray(0.5, dtype=np.float32), np.asarray([0.5], dtype=np.float32)]
+    full = (np.cos(np.arange(first.size, dtype=np.float32)).reshape(first.shape) * 0.5) if hasattr(first, "shape") else None
+    mask = (np.arange(first.size).reshape(first.shape) % 2 == 0) if hasattr(first, "shape") else None
+    if name in ("axis", "axes", "axis1", "axis2") or "Axis" in ann:
+        vals = list(AXES)
+        if d is not None:
+            vals = [v for v in vals if v is not None]
+        return vals
+    if isinstance(d, bool) or name == "keepdims" or ("bool" in ann and "Array" not in ann):
+        return [True, False] + ([None] if d is None else [])
+    if name == "dtype" or "DTypeLike" in ann:
+        return [jnp.int32, jnp.float32] + ([None] if d is None else [])
+    if isinstance(d, int):
+        return sorted({0, 1, -1, d, d + 1}, key=lambda v: (abs(v), v))
+    if isinstance(d, float):
+        return NUMBERS + [d, d * 2 + 0.25]
+    if d is None:
+        if name in ("bias", "mask") and getattr(first, "ndim", 0) == 4:          # attention: (batch, heads, q_len, kv_len)
+            b_, t_, n_, _ = first.shape
+            if name == "bias":
+                return [np.cos(np.arange(b_ * n_ * t_ * t_, dtype=np.float32)).reshape(b_, n_, t_, t_), None]
+            return [np.broadcast_to(np.tril(np.ones((t_, t_), dtype=bool)), (b_, n_, t_, t_)).copy(), None]
+        if name in ("where", "mask"):
+            return [mask, np.asarray(True), np.asarray([True]), np.asarray(False), True, False, None]
+        if name in ("min", "max", "a_min", "a_max", "initial") or "ArrayLike" in ann:
+            return NUMBERS + [0.25, None] + arrs + ([full] if full is not None else [])
+        if "int" in ann:
+            return [0, 1, -1, None]
+        if "float" in ann:
+            return NUMBERS + [None]
+    return []
+
+
+def companion_value(p, first):
+    """one non-default value for a parameter that accompanies the varied one"""
+    vals = _alt_value(p.name, p.default, first)
+    return vals[0] if vals else None
+
+
+def _explorable(e):
+    """(call-through function, array parameters, optional parameters) or None.  Array parameters: the leading positional
+    parameters without default whose names denote arrays; a first parameter `arr=None`-style (jnp.clip) counts too."""
+    if not inspect.ismodule(e["target"]) or e["target"].__name__.startswith(EXPLORE_SKIP_MODULES):
+        return None
+    so = e["orig_sigs"][0]
+    ps = list(so.parameters.values())
+    if any(p.kind is p.VAR_POSITIONAL for p in ps) or any(p.default is p.empty and p.kind is p.KEYWORD_ONLY for p in ps):
+        return None
+    pos = [p for p in ps if p.kind in (p.POSITIONAL_ONLY, p.POSITIONAL_OR_KEYWORD)]
+    req = [p for p in pos if p.default is p.empty]
+    if not req and pos and pos[0].default is None and pos[0].name in ARRAY_NAMES:
+        req = [pos[0]]
+    if not req or any(p.name not in ARRAY_NAMES for p in req) or pos[:len(req)] != req:
+        return None
+    opts = [p for p in ps if p not in req and p.kind is not p.VAR_KEYWORD]
+    tgt, attr = e["target"], e["attr"]
+
+    def f(*a, **k):            # looked up at call time, as user code does: the original eagerly, the substitute while tracing
+        return getattr(tgt, attr)(*a, **k)
+    return f, req, opts
+
+
+class Form:
+    """f(<arrays>, *pos, **kw); array-valued entries of pos/kw become additional inputs of the traced / exported function"""
+    __slots__ = ("pos", "kw", "param", "spelling", "single")
+
+    def __init__(self, pos, kw, param, spelling, single=None):
+        self.pos, self.kw, self.param, self.spelling = list(pos), dict(kw), param, spelling
+        self.single = single          # for a pair form: text of the single-parameter form it extends
+
+    def text(self, name, n_arr):
+        parts = ["<arr>"] * n_arr + [_vtext(v) for v in self.pos] + [f"{k}={_vtext(v)}" for k, v in self.kw.items()]
+        return f"{name}({', '.join(parts)})"
+
+    def shape(self):
+        return len(self.pos), tuple(self.kw)
+
+    def build(self, f, arrays):
+        """-> (function of the input arrays, input arrays)"""
+        extra, slots = [], []
+        for i, v in enumerate(self.pos):
+            if hasattr(v, "shape") and hasattr(v, "dtype"):
+                slots.append(("p", i, len(extra)))
+                extra.append(v)
+        for k, v in self.kw.items():
+            if hasattr(v, "shape") and hasattr(v, "dtype"):
+                slots.append(("k", k, len(extra)))
+                extra.append(v)
+        n = len(arrays)
+        pos0, kw0 = list(self.pos), dict(self.kw)
+
+        def call(*xs):
+            pos, kw = list(pos0), dict(kw0)
+            for kind, where, j in slots:
+                if kind == "p":
+                    pos[where] = xs[n + j]
+                else:
+                    kw[where] = xs[n + j]
+            return f(*xs[:n], *pos, **kw)
+        return call, list(arrays) + extra
+
+
+def forms_for(e, req, opts, first, pairs):
+    """the call forms: one varied optional parameter p with each boundary value, spelled
+       K  by keyword;            P  positionally after the defaults of the optional parameters before it;
+       K+c / P+c (pairs=True)     the same with ONE other optional parameter at a non-default companion value."""
+    so = e["orig_sigs"][0]
+    pos_params = [q for q in so.parameters.values() if q.kind in (q.POSITIONAL_ONLY, q.POSITIONAL_OR_KEYWORD)]
+    n = len(req)
+    for p in opts:
+        vals = boundary_values(p, first)
+        if not vals:
+            continue
+        j = pos_params.index(p) if p in pos_params else None
+        before = pos_params[n:j] if j is not None else []
+        for v in vals:
+            fk = fp = None
+            if p.kind is not p.POSITIONAL_ONLY:
+                fk = Form([], {p.name: v}, p.name, "keyword")
+                yield fk
+            if j is not None and all(q.default is not q.empty for q in before):
+                fp = Form([q.default for q in before] + [v], {}, p.name, "positional")
+                yield fp
+            if not pairs:
+                continue
+            for c in opts:
+                if c is p:
+                    continue
+                cv = companion_value(c, first)
+                if cv is None:
+                    continue
+                if fk is not None and c.kind is not c.POSITIONAL_ONLY:
+                    yield Form([], {c.name: cv, p.name: v}, p.name, f"keyword, with {c.name}", single=fk)
+                if fp is not None and c in before:
+                    yield Form([(cv if q is c else q.default) for q in before] + [v], {}, p.name, f"positional, with {c.name}", single=fp)
+
+
+def _outcome(fn, *args):
     try:
-        want = _flat(call(*arrays))
-    except BaseException:
-        return "invalid", ""
-    if _same(want, base)[0]:
-        return "no-effect", ""
-    try:
-        got = _flat(_export_run(call, arrays))
-    except _ModelInvalid as exc:
-        return "model-invalid", str(exc)
+        return "ok", _flat(fn(*args))
     except BaseException as exc:
-        msg = f"{type(exc).__name__}: {str(exc)[:200]}"
-        if isinstance(exc, NotImplementedError) or EXPLICIT.search(str(exc)):
-            return "rejected", msg
-        return "FAILS", msg
-    ok, how = _same(got, want)
-    if ok:
-        return "same", ""
-    return "DIFFERENT", how + ("; the exported model computes the result of the DEFAULT value" if _same(got, base)[0] else "")
+        return "raises", f"{type(exc).__name__}: {str(exc)[:160]}"
 
 
-def _value_text(v):
-    return getattr(v, "__name__", None) or (f"<{v.dtype} array {tuple(v.shape)}>" if hasattr(v, "shape") else repr(v))
+def _const_key(consts):
+    import numpy as np
+    out = []
+    for k in consts:
+        try:
+            out.append(np.asarray(k).tobytes())
+        except Exception:
+            out.append(id(k))
+    return tuple(out)
 
 
-def explore_arguments(ctx, usable, all_profiles=False, budget_s=600, only=None):
+def _same_strict(a, b):
+    ok, how = _same(a, b)
+    if not ok:
+        return ok, how
+    for x, y in zip(a, b):
+        if x.dtype != y.dtype:
+            return False, f"dtype {x.dtype} vs {y.dtype}"
+    return True, ""
+
+
+def behavioural(ctx, usable, tier, rng, export_budget_s, only=None):
+    """-> dict of counters + 'failures': [{key, callable, form, path, how, ...}]"""
     import time
+    import jax
     t0 = time.time()
-    out = {"functions_tried": 0, "functions_with_a_valid_plain_call": 0, "plain_call_export_differs_or_fails": [],
-           "parameter_values_tried": 0, "jax_rejects_value": 0, "value_without_effect_on_inputs": 0,
-           "rejected_at_export": 0, "same_result": 0, "differences": [], "budget_exhausted": False,
-           "rejections": [], "exported_model_refused_by_onnxruntime": []}
-    out["positional_crossings_hint"] = [dict(_crossing(e), callable=e["key"][4:]) for e in usable if _crossing(e)]
+    out = {"callables": 0, "callables_with_a_valid_plain_call": 0, "forms_x_values": 0, "substitute_does_not_bind_form(sig finding)": 0,
+           "original_raises": 0, "J_same": 0, "J_explicitly_rejected": 0, "J_cannot_evaluate": 0, "J_plain_call_differs": [],
+           "E_tried": 0, "E_same": 0, "E_explicitly_rejected": 0, "E_model_refused_by_onnxruntime": [],
+           "E_plain_call_export_differs_or_fails": [], "E_budget_exhausted": False, "failures": []}
+    pairs = tier != "quick"
+    try:        # XLA's persistent compilation cache: the eager side compiles one small kernel per (function, static argument)
+        jax.config.update("jax_compilation_cache_dir", os.environ.get("VERIF_JAX_CACHE", "/tmp/verif_c19_jaxcache"))
+        jax.config.update("jax_persistent_cache_min_compile_time_secs", 0)
+        jax.config.update("jax_persistent_cache_min_entry_size_bytes", -1)
+    except Exception:
+        pass
     logging.disable(logging.CRITICAL)
     try:
-        for e in sorted(usable, key=lambda e: _crossing(e) is None):        # callables with a crossing hint first
+        from jax2onnx.converter import conversion_api as ca
+        # ---- 1. enumerate cases and evaluate the ORIGINAL eagerly (outside the patched world)
+        cases = []
+        eager_cache = {}          # aliases (jax.nn.f, flax.linen.f, ...) share one original: evaluate it once per form
+        for e in usable:
             if only is not None and e["key"] != only[0]:
                 continue
-            if time.time() - t0 > budget_s:
-                out["budget_exhausted"] = True
-                break
             ex = _explorable(e)
             if ex is None:
                 continue
             f, req, opts = ex
-            out["functions_tried"] += 1
+            out["callables"] += 1
+            name = e["key"][4:]
             valid = []
             for pname, mk in _profiles():
                 arrays = [mk(i) for i in range(len(req))]
-                try:
-                    base = _flat(f(*arrays))
-                    if base and all(b.dtype.kind in "fiub" for b in base):
-                        valid.append((pname, arrays, base))
-                        if not all_profiles:
-                            break
-                except BaseException:
-                    continue
+                st, base = _outcome(f, *arrays)
+                if st == "ok" and base and all(b.dtype.kind in "fiub" for b in base):
+                    valid.append((pname, arrays, base))
+                    if tier == "quick":
+                        break
             if not valid:
                 continue
-            out["functions_with_a_valid_plain_call"] += 1
+            out["callables_with_a_valid_plain_call"] += 1
             for pname, arrays, base in valid:
+                plain = Form([], {}, None, "plain")
+                cases.append({"e": e, "f": f, "name": name, "profile": pname, "arrays": arrays, "form": plain, "plain": True,
+                              "want": ("ok", base), "n_arr": len(req)})
+                seen = set()
+                for form in forms_for(e, req, opts, arrays[0], pairs):
+                    txt = form.text(name, len(req))
+                    if txt in seen:
+                        continue
+                    seen.add(txt)
+                    if only is not None and f"arg {txt}" != only[1]:
+                        continue
+                    out["forms_x_values"] += 1
+                    npos, kws = form.shape()
+                    if not py_binds(e["sub_sig"], len(req) + npos, kws):
+                        out["substitute_does_not_bind_form(sig finding)"] += 1
+                        continue
+                    call, inputs = form.build(f, arrays)
+                    ck = (id(e["orig"]), pname, txt.split("(", 1)[1])
+                    if ck not in eager_cache:
+                        eager_cache[ck] = _outcome(call, *inputs)
+                    want = eager_cache[ck]
+                    if want[0] == "raises":
+                        out["original_raises"] += 1
+                        continue
+                    cases.append({"e": e, "f": f, "name": name, "profile": pname, "arrays": arrays, "form": form, "plain": False,
+                                  "want": want, "call": call, "inputs": inputs, "n_arr": len(req), "text": txt})
+        out["t_enumerate_and_eager"] = round(time.time() - t0, 1)
+        # ---- 2. J: trace every case inside ONE activation of the converter's patched world
+        with ca._activate_plugin_worlds():
+            for c in cases:
+                if c["plain"]:
+                    c["call"], c["inputs"] = (lambda *xs, _f=c["f"]: _f(*xs)), c["arrays"]
                 try:
-                    plain_ok = _same(_flat(_export_run(lambda *xs, _f=f: _f(*xs), arrays)), base)[0]
+                    c["jaxpr"] = jax.make_jaxpr(c["call"])(*c["inputs"])
+                except BaseException as exc:
+                    c["trace_error"] = exc
+        out["t_trace"] = round(time.time() - t0, 1)
+        bad_plain = set()
+        eval_cache = {}
+        for c in cases:
+            if "trace_error" in c:
+                exc = c["trace_error"]
+                msg = f"{type(exc).__name__}: {str(exc)[:200]}"
+                if isinstance(exc, NotImplementedError) or EXPLICIT.search(str(exc)):
+                    c["J"] = ("rejected", msg)
+                else:
+                    c["J"] = ("FAILS", "tracing the substitute raises " + msg)
+            else:
+                try:
+                    jk = (str(c["jaxpr"]), c["profile"], _const_key(c["jaxpr"].consts), tuple(_vtext(v) for v in c["inputs"][c["n_arr"]:]))
+                    if jk not in eval_cache:
+                        eval_cache[jk] = _flat(jax.core.eval_jaxpr(c["jaxpr"].jaxpr, c["jaxpr"].consts, *c["inputs"]))
+                    got = eval_cache[jk]
+                    ok, how = _same_strict(got, c["want"][1])
+                    c["J"] = ("same", "") if ok else ("DIFFERENT", how)
+                except BaseException as exc:
+                    c["J"] = ("cannot-evaluate", f"{type(exc).__name__}: {str(exc)[:120]}")
+            if c["plain"] and c["J"][0] != "same":
+                bad_plain.add((c["name"], c["profile"]))
+                out["J_plain_call_differs"].append(f"{c['name']} on {c['profile']}: {c['J'][0]} {c['J'][1][:100]}")
+        for c in cases:
+            if c["plain"] or (c["name"], c["profile"]) in bad_plain:
+                continue
+            if c["form"].single is not None and f"arg {c['form'].single.text(c['name'], c['n_arr'])}" in {x["key"] for x in out["failures"]}:
+                c["J"] = ("skipped", "")          # a companion adds nothing to a form that already fails alone
+                continue
+            st, how = c["J"]
+            if st == "same":
+                out["J_same"] += 1
+            elif st == "rejected":
+                out["J_explicitly_rejected"] += 1
+            elif st == "cannot-evaluate":
+                out["J_cannot_evaluate"] += 1
+            else:
+                out["failures"].append({"key": f"arg {c['text']}", "callable": c["name"], "form": c["text"], "parameter": c["form"].param,
+                                        "spelling": c["form"].spelling, "inputs": c["profile"], "path": "substitute traced + evaluated",
+                                        "how": how, "fails": st == "FAILS"})
+        out["t_eval"] = round(time.time() - t0, 1)
+        # ---- 3. E: export + onnxruntime (sample chosen by seed in quick, everything in thorough; bounded by a budget)
+        failed = {x["key"] for x in out["failures"]}
+        todo = [c for c in cases if not c["plain"] and c["J"][0] in ("same", "cannot-evaluate") and f"arg {c['text']}" not in failed]
+        rng.shuffle(todo)          # the order only matters when the budget cuts the list short
+        todo.sort(key=lambda c: c["form"].single is not None)          # single-parameter forms first (stable sort)
+        plain_ok = {}
+        t1 = time.time()
+        for c in todo:
+            if time.time() - t1 > export_budget_s:
+                out["E_budget_exhausted"] = True
+                break
+            pk = (c["name"], c["profile"])
+            if pk not in plain_ok:
+                try:
+                    base = [x["want"][1] for x in cases if x["plain"] and (x["name"], x["profile"]) == pk][0]
+                    plain_ok[pk] = _same(_flat(_export_run(lambda *xs, _f=c["f"]: _f(*xs), c["arrays"])), base)[0]
                 except BaseException:
-                    plain_ok = False
-                if not plain_ok:                     # not this property's business, and nothing can be attributed to an argument
-                    out["plain_call_export_differs_or_fails"].append(f"{e['key'][4:]} on {pname}")
-                    continue
-                pos_params = [q for q in e["orig_sigs"][0].parameters.values()
-                              if q.kind in (q.POSITIONAL_ONLY, q.POSITIONAL_OR_KEYWORD)]
-                for p in opts:
-                    if only is not None and p.name != only[1]:
-                        continue
-                    vals = _alt_value(p.name, p.default, arrays[0])
-                    if not vals:
-                        continue
-                    variants = []
-                    if p.kind is not p.POSITIONAL_ONLY and py_binds(e["sub_sig"], len(arrays), (p.name,)):
-                        variants.append(("keyword", None))
-                    if p in pos_params:
-                        j = pos_params.index(p)
-                        if j >= len(arrays) and py_binds(e["sub_sig"], j + 1, ()):
-                            variants.append(("positional", [q.default for q in pos_params[len(arrays):j]]))
-                    # a form the substitute does not bind is a signature finding already, not explored here
-                    for how_passed, before in variants:
-                        for v in vals:
-                            out["parameter_values_tried"] += 1
-                            status, detail = _probe_argument(f, arrays, base, p.name, v, before)
-                            if status == "invalid":
-                                out["jax_rejects_value"] += 1
-                            elif status == "no-effect":
-                                out["value_without_effect_on_inputs"] += 1
-                            elif status == "rejected":
-                                out["rejected_at_export"] += 1
-                                if len(out["rejections"]) < 200:
-                                    out["rejections"].append(f"{e['key'][4:]}({p.name}={_value_text(v)}, {how_passed}): {detail[:120]}")
-                            elif status == "model-invalid":
-                                out["exported_model_refused_by_onnxruntime"].append(f"{e['key'][4:]}({p.name}={_value_text(v)}, {how_passed}): {detail[:120]}")
-                            elif status == "same":
-                                out["same_result"] += 1
-                            elif status == "FAILS":
-                                out["differences"].append({"key": f"arg {e['key'][4:]}.{p.name}", "callable": e["key"][4:],
-                                                           "parameter": p.name, "passed": how_passed, "value": _value_text(v),
-                                                           "inputs": pname, "how": "export fails with " + detail, "fails": True})
-                            else:
-                                out["differences"].append({"key": f"arg {e['key'][4:]}.{p.name}", "callable": e["key"][4:],
-                                                           "parameter": p.name, "passed": how_passed, "value": _value_text(v),
-                                                           "inputs": pname, "how": detail})
+                    plain_ok[pk] = False
+                if not plain_ok[pk]:
+                    out["E_plain_call_export_differs_or_fails"].append(f"{pk[0]} on {pk[1]}")
+            if not plain_ok[pk]:
+                continue
+            if c["form"].single is not None and f"arg {c['form'].single.text(c['name'], c['n_arr'])}" in {x["key"] for x in out["failures"]}:
+                continue
+            out["E_tried"] += 1
+            try:
+                got = _flat(_export_run(c["call"], c["inputs"]))
+            except _ModelInvalid as exc:
+                if len(out["E_model_refused_by_onnxruntime"]) < 40:
+                    out["E_model_refused_by_onnxruntime"].append(f"{c['text']}: {str(exc)[:120]}")
+                continue
+            except BaseException as exc:
+                msg = f"{type(exc).__name__}: {str(exc)[:200]}"
+                if isinstance(exc, NotImplementedError) or EXPLICIT.search(str(exc)):
+                    out["E_explicitly_rejected"] += 1
+                else:
+                    out["failures"].append({"key": f"arg {c['text']}", "callable": c["name"], "form": c["text"], "parameter": c["form"].param,
+                                            "spelling": c["form"].spelling, "inputs": c["profile"], "path": "export",
+                                            "how": "export fails with " + msg, "fails": True})
+                continue
+            ok, how = _same(got, c["want"][1])
+            if ok:
+                out["E_same"] += 1
+            else:
+                out["failures"].append({"key": f"arg {c['text']}", "callable": c["name"], "form": c["text"], "parameter": c["form"].param,
+                                        "spelling": c["form"].spelling, "inputs": c["profile"], "path": "export + onnxruntime",
+                                        "how": how, "fails": False})
     finally:
         logging.disable(logging.NOTSET)
     out["wall_s"] = round(time.time() - t0, 1)
@@ -801,12 +1017,15 @@ def run(ctx):
     ctx.assumptions = [
         "Only binding is covered by proof (a valid call never fails merely because the substitute binds arguments differently).  "
         "That an accepted argument is lowered with the same meaning or rejected explicitly (no argument silently ignored) has NO "
-        "theorem: it is explored only, for module-level functions (jax.numpy, jax.nn, flax.linen, flax.nnx) whose required "
-        "parameters are arrays, by passing each optional parameter, by keyword and positionally where both signatures bind it, with "
-        "one or two non-default values through to_onnx + onnxruntime and comparing with JAX "
-        "(coverage.exploration_no_argument_silently_ignored).  A difference is reported only when the same call without the argument "
-        "exports correctly.  Module methods, functions needing non-array arguments, combinations of arguments and other values are "
-        "not explored.",
+        "theorem: it is checked by a behavioural differential on the real code for module-level functions (jax.numpy, jax.nn, "
+        "flax.linen, flax.nnx) whose leading parameters are arrays: one optional parameter at a time takes every value of a boundary "
+        "set for its kind (numbers 0, 0.0, -0.0, False, 1, -1; axes 0, -1, None, (), (0,), 1; both booleans; None where it is the "
+        "default; scalar / one-element / full arrays), spelled by keyword and positionally (thorough: also with one other parameter "
+        "at a non-default value, and on every input profile); the original run eagerly is compared with the substitute traced in "
+        "the converter's patched world and evaluated (all forms) and with the exported model in onnxruntime (all single-parameter "
+        "forms within a time budget in quick, everything in thorough).  Outcomes accepted: same shape / dtype class / values, an "
+        "explicit unsupported-feature error, or the original raises too.  Module methods, functions needing non-array required "
+        "arguments and combinations of three or more arguments are not covered.",
         "Argument values play no role in binding; call forms with *iterable / **mapping unpacking reduce to the (count, names) "
         "form after unpacking.",
         "A substitute that forwards ( *args, **kwargs ) binds every call; whether the code behind it accepts the arguments is "
@@ -937,27 +1156,30 @@ def run(ctx):
     cases, expected = correspondence(ctx, real_sigs, n_real, n_synth) if real_sigs else ([], [])
 
     lap("correspondence")
-    # ---- second half of the property: exploration, no theorem
+    # ---- second half of the property: behavioural differential over call forms x boundary values, no theorem
     try:
-        expl = explore_arguments(ctx, usable, all_profiles=(ctx.tier != "quick"), budget_s=45 if ctx.tier == "quick" else 900)
-    except Exception as exc:                       # the exploration must never break the proved part
-        expl = {"error": f"{type(exc).__name__}: {exc}", "differences": []}
-    lap("exploration")
+        expl = behavioural(ctx, usable, ctx.tier, ctx.rng, 110 if ctx.tier == "quick" else 1200)
+    except Exception as exc:                       # the differential must never break the proved part
+        import traceback
+        expl = {"error": f"{type(exc).__name__}: {exc}", "traceback": traceback.format_exc()[-1500:], "failures": []}
+        ctx.oblige("behavioural-differential-ran", False, "tie", expl["traceback"])
+    lap("behavioural")
+    expl["positional_crossings_hint"] = [dict(_crossing(e), callable=e["key"][4:]) for e in usable if _crossing(e)]
     seen_arg = set()
-    for d in expl["differences"]:
+    for d in expl["failures"]:
         if d["key"] in seen_arg:
             continue
         seen_arg.add(d["key"])
-        form = f"{d['parameter']}={d['value']}" if d["passed"] == "keyword" else f"..., {d['value']} as positional argument `{d['parameter']}`"
-        if d.get("fails"):
-            what = (f"{d['callable']}(<arrays {d['inputs']}>, {form}) is a valid JAX call, but its {d['how']} (not an unsupported-feature "
-                    f"error), although the same call without that argument exports correctly")
+        if d["fails"]:
+            what = (f"{d['form']} on inputs {d['inputs']} is a valid call of the original ({d['parameter']} varied, {d['spelling']}), but "
+                    f"{d['how']} -- not an unsupported-feature error -- although the plain call works [{d['path']}]")
         else:
-            what = (f"{d['callable']}(<arrays {d['inputs']}>, {form}): JAX computes one result, the exported model another ({d['how']}), "
-                    f"although the same call without that argument exports correctly")
-        ctx.violate(d["key"], what, {"kind": "argument", "sig_key": "sig " + d["callable"], "parameter": d["parameter"],
-                                     "passed": d["passed"], "value": d["value"], "inputs": d["inputs"]})
+            what = (f"{d['form']} on inputs {d['inputs']} ({d['parameter']} varied, {d['spelling']}): the original computes one result, the "
+                    f"traced substitute another ({d['how']}), although the plain call agrees [{d['path']}]")
+        ctx.violate(d["key"], what, {"kind": "argument", "sig_key": "sig " + d["callable"], "arg_key": d["key"], "inputs": d["inputs"],
+                                     "path": d["path"]})
         known_entries.append({"property": "C19", "key": d["key"], "status": "known", "what": what})
+    expl["failures"] = [{k: v for k, v in d.items()} for d in expl["failures"]][:400]
 
     os.makedirs(os.path.join(common.VERIF, ".scratch", "c19"), exist_ok=True)
     with open(os.path.join(common.VERIF, ".scratch", "c19", "pairs.txt"), "w") as fh:
@@ -967,7 +1189,7 @@ def run(ctx):
 
     differing = [pr for pr in pair_list if pr[0] != pr[1]]
     ctx.coverage.update({
-        "evaluations": len(usable) + len(cases) + pos_checked + n_wit_total + int(expl.get("parameter_values_tried", 0)),
+        "evaluations": len(usable) + len(cases) + pos_checked + n_wit_total + int(expl.get("forms_x_values", 0)) + int(expl.get("E_tried", 0)),
         "distinct_nontrivial": len(differing),
         "rule": "every attribute the plugin registry replaces by a callable while tracing (leaf-plugin MonkeyPatchSpec/AssignSpec and "
                 "function-plugin patches), original vs installed substitute, decided for ALL call forms by the proved procedure; "
@@ -987,7 +1209,7 @@ def run(ctx):
         "random_call_forms": {"real_signatures": n_real, "synthetic_signatures": n_synth,
                               "binding": int(sum(expected)), "not_binding": len(expected) - int(sum(expected))},
         "sampled_accepting_calls_on_subsuming_pairs": pos_checked,
-        "exploration_no_argument_silently_ignored": expl,
+        "behavioural_differential_call_forms_x_boundary_values": expl,
         "phase_seconds": phase,
     })
     ctx.samples = samples + [{"callable": e["key"][4:], "verdict": "subsumes", "original": str(e["orig_sigs"][0]),
@@ -1000,9 +1222,10 @@ def replay(path):
     entries, _ = enumerate_patches()
     if r.get("kind") == "argument":
         usable = [e for e in entries if analyse_entry(e)]
-        res = explore_arguments(None, usable, all_profiles=True, budget_s=600, only=(r["sig_key"], r["parameter"]))
-        print(json.dumps(res["differences"], indent=1))
-        return 1 if res["differences"] else 0
+        import random
+        res = behavioural(None, usable, "thorough", random.Random(0), 600, only=(r["sig_key"], r["arg_key"]))
+        print(json.dumps(res["failures"], indent=1))
+        return 1 if res["failures"] else 0
     for e in entries:
         if _qual(e["target"]) == r["target"] and e["attr"] == r["attr"]:
             if not analyse_entry(e):
